@@ -82,10 +82,16 @@ def jobs(tier, seed):
         for shape in ([], [2]):
             out.append(('args2-%s-n%d-%s' % (method, n, 'x'.join(map(str, shape)) or 's'),
                         dict(kind='args2', k=0, c=n, shape=shape, method=method)))
+    out.append(('witness-scalar-vs-array-kernels', dict(kind='kernels', k=0, c=0, shape=[], method='')))
     return out
 
 
 def run_job(job, kind, k, c, shape, method):
+    if kind == 'kernels':
+        bad = kernel_failures()
+        if not job.confirm('scalar call == array element, bit for bit, on a grid of 11264 points (concrete runs)', not bad):
+            job.violation('kernels', dict(key='C08:scalar-path-differs-from-array-path', kind='kernels', detail=bad[0]))
+        return
     if kind == 'args2':
         return args2(job, method, c, tuple(shape))
     if kind == 'unit':
@@ -384,6 +390,38 @@ def args2(job, method, n, shape):
             job.violation('differs', dict(key='C08:args2:%s:second-call-differs-from-fresh-object' % method, kind='args2'))
 
 
+def kernel_failures():
+    """CONCRETE witness runs (not solver evidence).  The non-interference result carries over to bit-identical floats only if a
+    value is processed by the same floating-point kernels whether it arrives as a scalar or as an array element (stated
+    assumption of this check).  This is probed where the library treats the two differently: the nominal step (a log) on a grid
+    of 11264 points with |x| > 1, and whole first derivatives on a subset."""
+    sg = cm.nd_mods()['sg']
+    nd = cm.nd_mods()['nd']
+    bad = []
+    xs = np.arange(1025, 12289) / 1024.0
+    arr = np.asarray(sg.get_nominal_step(xs))
+    sca = np.array([float(np.asarray(sg.get_nominal_step(float(v)))) for v in xs])
+    one = np.array([float(np.asarray(sg.get_nominal_step(np.array([v])))[0]) for v in xs[::16]])
+    diff = np.flatnonzero(arr != sca)
+    if diff.size:
+        v = xs[diff[0]]
+        bad.append('get_nominal_step(%r) = %r as a scalar but %r as an array element (%d of %d grid points differ)'
+                   % (float(v), float(sca[diff[0]]), float(arr[diff[0]]), diff.size, xs.size))
+    if np.any(one != arr[::16]):
+        bad.append('get_nominal_step of a one-element array differs from the element of a longer array')
+    pts = [float(v) for v in (xs[diff[:20]] if diff.size else xs[::563])]
+    for method in ('central', 'forward'):
+        d = nd.Derivative(np.exp, method=method)
+        for v in pts:
+            with cm.quiet():
+                a = float(np.asarray(d(np.array([v, 2.0, 0.5])))[0])
+                b = float(d(v))
+            if a != b:
+                bad.append('Derivative(exp, method=%s): %r inside an array gives %r, alone as a scalar %r' % (method, v, a, b))
+                break
+    return bad
+
+
 def _same_c(a, b):
     a, b = sn.as_symc(a if not isinstance(a, np.ndarray) else a[()]), sn.as_symc(b if not isinstance(b, np.ndarray) else b[()])
     return _same(a.re, b.re) and _same(a.im, b.im)
@@ -462,6 +500,9 @@ def replay(cex):
         except ValueError:
             pass
         return False, 'vstack ok'
+    if kind == 'kernels':
+        bad = kernel_failures()
+        return (True, bad[0]) if bad else (False, 'scalar and array paths agree bit for bit')
     if kind == 'args2':
         method, n, shape = cfg['method'], cfg['c'], tuple(cfg['shape'])
         xs = np.array([0.5, 1.25]) if shape else 0.75
